@@ -26,6 +26,15 @@ TU = "scriptplan/_cython/time_utils_cy.pyx"
 MP = "scriptplan/parser/macro_processor.py"
 
 MUTANTS = [
+    # ------------------------------------------------------------------ reverts of repaired defect F45 (C02)
+    ("c02_wrapping_shift_covers_own_morning", "C02", [(WH, "                if slot_minutes >= start_minutes:\n                    return True", "                if slot_minutes >= start_minutes or slot_minutes < end_minutes:\n                    return True")]),
+    ("c02_no_hours_day_returns_early", "C02", [(WH, "        slot_minutes = dt.hour * 60 + dt.minute\n", "        if weekday not in self._hours or not self._hours[weekday]:\n            return False\n\n        slot_minutes = dt.hour * 60 + dt.minute\n")]),
+    # ------------------------------------------------------------------ revert of repaired defect F44 (C03)
+    ("c03_all_alternatives_as_team", "C03", [(TS, "        alternative_resources = [best_alternative]\n", "        alternative_resources = list(alternative_resources)\n")]),
+    # ------------------------------------------------------------------ revert of repaired defect F42 (C03)
+    ("c03_only_last_member_trimmed", "C03", [(TS, "        for member in getattr(self, \"_selectedResources\", None) or []:\n            if member is resource:\n                continue", "        for member in []:\n            if member is resource:\n                continue")]),
+    # ------------------------------------------------------------------ revert of repaired defect F41 (C06)
+    ("c06_alap_single_slot_end", "C06", [(TS, "            if first_booked_slot is None and self.doneEffort > previous_effort:\n                first_booked_slot = self.currentSlotIdx\n\n", "")]),
     # ------------------------------------------------------------------ reverts of repaired defects F36-F40
     ("c04_milestone_slot_start", "C04", [(TS, "                    if date is not None and self.slotStartOffset > 0:\n                        from datetime import timedelta\n\n                        date = date + timedelta(seconds=self.slotStartOffset)\n", "")]),
     ("c08_offset_carried_along", "C08", [(TS, "            self.slotStartOffset = 0.0\n            if self.currentSlotIdx < lowerLimit", "            if self.currentSlotIdx < lowerLimit")]),
@@ -73,8 +82,8 @@ MUTANTS = [
     ("c02_tz_not_passed_own_hours", "C02", [(RS, "            result2: bool = workinghours.onShift(sb_idx, timezone=resource_tz)", "            result2: bool = workinghours.onShift(sb_idx)")]),
     ("c02_single_day_vacation_empty", "C02", [(TP, "                    start_date = value.get(\"start\")\n                    end_date = value.get(\"end\", start_date)\n                    # A single date means that whole day (same rule as the global vacation)\n                    if start_date and (end_date is None or end_date == start_date):\n                        from datetime import timedelta\n\n                        end_date = start_date + timedelta(days=1)\n\n                    if start_date and end_date:\n                        interval = TimeInterval(start_date, end_date)\n                        type_idx = Leave.Types.get(\"annual\", 5)  # Vacation",
                                                "                    start_date = value.get(\"start\")\n                    end_date = value.get(\"end\", start_date)\n\n                    if start_date and end_date:\n                        interval = TimeInterval(start_date, end_date)\n                        type_idx = Leave.Types.get(\"annual\", 5)  # Vacation")]),
-    ("c02_cross_midnight_and", "C02", [(WH, "                if slot_minutes >= start_minutes or slot_minutes < end_minutes:", "                if slot_minutes >= start_minutes and slot_minutes < end_minutes:")]),
-    ("c02_weekday_before_tz", "C02", [(WH, "        weekday = dt.weekday()\n\n        # Check if this day has working hours defined", "        weekday = self.project.idxToDate(slot_idx).weekday()\n\n        # Check if this day has working hours defined")]),
+    ("c02_cross_midnight_and", "C02", [(WH, "                if slot_minutes >= start_minutes:\n                    return True", "                if slot_minutes >= start_minutes and slot_minutes < end_minutes:\n                    return True")]),
+    ("c02_weekday_before_tz", "C02", [(WH, "        weekday = dt.weekday()\n\n        slot_minutes = dt.hour", "        weekday = self.project.idxToDate(slot_idx).weekday()\n\n        slot_minutes = dt.hour")]),
     ("c02_vacations_ignored", "C02", [(RS, "        vacations = self.project.attributes.get(\"vacations\", [])\n        if vacations:\n            for vac in vacations:\n                if hasattr(vac, \"interval\") and vac.interval and vac.interval.start <= date < vac.interval.end:\n                    return False\n",
                                        ""),
                                       (PJ, "        vacations = self.attributes.get(\"vacations\", [])\n        for vac in vacations:", "        vacations = []\n        for vac in vacations:")]),
